@@ -20,6 +20,7 @@ class PropagationCheck:
         from .engines import propagation_check as E
 
         n, ncfg, k, wall = E.TIERS[tier][self.pid]
+        wall *= _wall_scale()
         if n_override:
             n = n_override
         return driver.run_check(self.pid, tier, seed, E, {"ncfg": ncfg, "k": k}, n, wall, "exploration", self.rule,
@@ -47,7 +48,7 @@ class EngineCheck:
     def run(self, tier: str, seed: int, n_override: Optional[int]) -> int:
         E = self._engine()
         cfg = E.TIERS[tier]
-        n, wall = cfg[0], cfg[-1]
+        n, wall = cfg[0], cfg[-1] * _wall_scale()
         if n_override:
             n = n_override
         arg = dict(zip(self.argnames, cfg[1:-1]))
@@ -58,6 +59,16 @@ class EngineCheck:
 
     def replay(self, path: str, quiet: bool) -> int:
         return driver.run_replay(self.pid, self._engine(), path, quiet)
+
+
+def _wall_scale() -> float:
+    """VERIF_WALL_SCALE stretches every tier's wall budget (for sensitivity runs on a busy machine); default 1"""
+    import os
+
+    try:
+        return max(float(os.environ.get("VERIF_WALL_SCALE", "1")), 0.1)
+    except ValueError:
+        return 1.0
 
 
 PROP_RULE = ("one evaluation = one simulated execution of a generated script (lattice / path / pie-of-sectors / shape assembly with chops; "
